@@ -43,7 +43,7 @@ Env == [vars |-> << [n |-> "x", v |-> VInt(5)],
         line |-> << <<76, 48>>, <<32, 76, 49, 32>> >>,            \* "L0", " L1 "
         headers |-> << <<104, 97>>, <<104, 98>> >>,
         meta |-> << [k |-> <<116, 105, 116, 108, 101>>, v |-> <<84>>] >>,   \* title: T
-        k |-> 1, matchCount |-> 0, scanCount |-> 1, totalData |-> 2]
+        k |-> 1, matchCount |-> 0, scanCount |-> 1, totalData |-> 2, valid |-> TRUE, stopped |-> FALSE]
 
 SepChars == {32, 44, 59, 58, 33, 45, 43, 40, 41, 91, 93, 123, 125, 60, 62, 47, 124, 63, 37, 38, 64, 35, 94, 39, 46}
 \* a text directly after a reference must start with a character that ends the reference's name
